@@ -946,7 +946,7 @@ def check_c15(prog, pdesc, rs, r, res, ledger, case, handles):
                     M.violate(['C15'], 'LEDGER', f'C15:container_flows_raised:{type(gexc).__name__}:{"plate" if plate else "container"}',
                               dict(detail, exc=repr(gexc)[:200]))
                     continue
-                tol = half * (len(ks) + 1) + noise_u
+                tol = half + noise_u          # flows are rounded once, at the end
                 gi, go = numpy.asarray(got['in'], dtype=float), numpy.asarray(got['out'], dtype=float)
                 bad = None
                 if numpy.shape(gi) != numpy.shape(ein) and plate:
@@ -980,7 +980,7 @@ def check_c15(prog, pdesc, rs, r, res, ledger, case, handles):
                     M.count('C15.balance')
                     lhs = gi - go
                     rhs = reported['after'] - reported['before']
-                    if not bool(numpy.all(numpy.abs(lhs - rhs) <= tol * 2 + 1e-9 * numpy.abs(rhs))):
+                    if not bool(numpy.all(numpy.abs(lhs - rhs) <= 2 * half + 2 * noise_u + 1e-9 * numpy.abs(rhs))):
                         M.violate(['C15'], 'LEDGER', 'C15:inflow_minus_outflow_ne_change_in_remaining',
                                   dict(detail, inflow_minus_outflow=lhs.tolist(), change=rhs.tolist()))
 
